@@ -80,6 +80,13 @@ impl C02 {
             return;
         }
         let snap = w.snapshot();
+        // "while withdrawals are enabled": whatever the other two switches say
+        let other_switches_off = self.rng.gen_range(0..3) == 0;
+        if other_switches_off {
+            let owner = w.owner.clone();
+            let (s_off, d_off) = (self.rng.gen_bool(0.5), true);
+            w.apply(&crate::wpool::toggle_op(&owner, &p.info.pool_identifier, Some(!s_off), Some(!d_off), None));
+        }
         let out = w.apply(&withdraw_op(&who, &p.info.pool_identifier, coin(amt, p.info.lp_denom.clone())));
         w.restore(&snap);
         let abs = hash_of(&(&p.info.pool_identifier, mag(amt), mag(p.supply)));
